@@ -782,6 +782,14 @@ func laws18(r *Run, t *tree18, tb *tables18, g geo18, initial []fsEntry, run *lo
 		viol("model-coverage", "C18/unexpected-fs-operation", strings.Join(run.Unexpected, "; "))
 	}
 	fe := faultedEvent(run)
+	// ---- (0) a tree that is valid by construction must localize when nothing fails
+	if run.Fault < 0 && t.ExpectOk {
+		if run.Cls != kOk {
+			viol("equivalent", "C18/valid-tree-rejected", fmt.Sprintf("every reference of the tree is local, in scope and outside newDir, yet localize ended with %s: %.300s", run.Cls, run.Msg))
+		} else {
+			r.Count("law", "valid-tree-accepted")
+		}
+	}
 	// ---- (1) writes confined, (2) source unchanged: domain = newDir's parent is an existing directory
 	if g.parentOK {
 		for _, e := range run.Trace {
@@ -1159,6 +1167,7 @@ func runC18(r *Run, rng *Rng, tier string) error {
 		budget := 1
 		processTree18(r, t, true, &budget)
 	}
+	runDisk18(r)
 	maxTrace := 110
 	if tier == "thorough" {
 		maxTrace = 260
